@@ -9,6 +9,10 @@ type Filter []syscall.SockFilter
 // SockFprog converts Filter to SockFprog for seccomp syscall
 func (f Filter) SockFprog() *syscall.SockFprog {
 	b := []syscall.SockFilter(f)
+	if len(b) == 0 {
+		// no filter
+		return nil
+	}
 	return &syscall.SockFprog{
 		Len:    uint16(len(b)),
 		Filter: &b[0],
